@@ -110,6 +110,80 @@ def parse_vtu(path):
     return out
 
 
+VTK_TYPES = {'Float64': 'd', 'Float32': 'f', 'Int64': 'q', 'UInt64': 'Q', 'Int32': 'i', 'UInt32': 'I', 'Int16': 'h', 'UInt16': 'H', 'Int8': 'b', 'UInt8': 'B'}
+
+
+def read_vtu_any(path):
+    """VTU reader for all output formats of the tool (ascii, inline base64, appended base64, appended raw): arrays as lists of numbers.
+    -> {'format', 'npts', 'ncells', 'arrays': {(section, name): values}} ; raises ValueError with a description when the file is malformed"""
+    import base64
+    import re
+    import struct
+    raw = open(path, 'rb').read()
+    k = raw.find(b'<AppendedData')
+    head, appended, enc = raw, None, None
+    if k >= 0:
+        head = raw[:k]
+        m = re.match(rb'<AppendedData([^>]*)>\s*_', raw[k:], re.S)
+        if not m:
+            raise ValueError('AppendedData without the _ marker')
+        enc = re.search(rb'encoding="([^"]*)"', m.group(1)).group(1).decode()
+        end = raw.rfind(b'</AppendedData>')
+        appended = raw[k + m.end():end]
+        if enc == 'base64':
+            appended = appended.strip()
+    vf = re.search(rb'<VTKFile([^>]*)>', head)
+    if not vf:
+        raise ValueError('no VTKFile element')
+    hattr = dict((a.decode(), b.decode()) for a, b in re.findall(rb'(\w+)="([^"]*)"', vf.group(1)))
+    if hattr.get('compressor'):
+        raise ValueError('compressed')
+    htype = VTK_TYPES.get(hattr.get('header_type', 'UInt32'), 'I')
+    hsize = struct.calcsize(htype)
+    bo = '<' if hattr.get('byte_order', 'LittleEndian') == 'LittleEndian' else '>'
+    piece = re.search(rb'<Piece([^>]*)>', head)
+    pattr = dict((a.decode(), b.decode()) for a, b in re.findall(rb'(\w+)="([^"]*)"', piece.group(1)))
+    out = {'npts': int(pattr['NumberOfPoints']), 'ncells': int(pattr['NumberOfCells']), 'arrays': {}, 'format': None}
+    sections = [(mm.start(), mm.group(1).decode()) for mm in re.finditer(rb'<(PointData|CellData|Points|Cells)[ >]', head)]
+    for mm in re.finditer(rb'<DataArray([^>]*?)(/>|>(.*?)</DataArray>)', head, re.S):
+        attr = dict((a.decode(), b.decode()) for a, b in re.findall(rb'(\w+)="([^"]*)"', mm.group(1)))
+        sec = [nm for (pos, nm) in sections if pos < mm.start()][-1]
+        code = VTK_TYPES[attr['type']]
+        size = struct.calcsize(code)
+        fmt = attr.get('format', 'ascii')
+        out['format'] = fmt if fmt != 'appended' else 'appended-' + enc
+        name = attr.get('Name', sec)
+        if fmt == 'ascii':
+            vals = [float(x) if code in 'df' else int(x) for x in (mm.group(3) or b'').split()]
+        elif fmt == 'binary':
+            text = b''.join((mm.group(3) or b'').split())
+            nh = 4 * ((hsize + 2) // 3)
+            nbytes = struct.unpack(bo + htype, base64.b64decode(text[:nh])[:hsize])[0]
+            data = base64.b64decode(text[nh:])
+            if len(data) != nbytes:
+                raise ValueError('%s: header announces %d bytes, %d decoded' % (name, nbytes, len(data)))
+            vals = list(struct.unpack(bo + '%d%s' % (nbytes // size, code), data))
+        elif fmt == 'appended':
+            off = int(attr['offset'])
+            if enc == 'raw':
+                nbytes = struct.unpack(bo + htype, appended[off:off + hsize])[0]
+                data = appended[off + hsize:off + hsize + nbytes]
+            else:
+                first = base64.b64decode(appended[off:off + 4 * ((hsize + 2) // 3)])
+                nbytes = struct.unpack(bo + htype, first[:hsize])[0]
+                if nbytes > len(appended):
+                    raise ValueError('%s: offset %d: header announces %d bytes, the appended section has %d characters' % (name, off, nbytes, len(appended)))
+                nchar = 4 * ((hsize + nbytes + 2) // 3)
+                data = base64.b64decode(appended[off:off + nchar])[hsize:hsize + nbytes]
+            if len(data) != nbytes or nbytes % size:
+                raise ValueError('%s: offset %d: header announces %d bytes, %d available' % (name, off, nbytes, len(data)))
+            vals = list(struct.unpack(bo + '%d%s' % (nbytes // size, code), data))
+        else:
+            raise ValueError('unknown format ' + fmt)
+        out['arrays'][(sec, name)] = vals
+    return out
+
+
 def run_tool(args):
     exe, argv, cwd = args
     env = core.san_env('asan')
@@ -200,6 +274,7 @@ def main(tier, seed, replay):
                           'several -j, --filtered / --by-tag): XML well formed, declared counts = array lengths, node set = independent reference mesh (formatted like the tool), every cell the 2^dim corners of one logical box '
                           '(annulus with wrap; sphere: shell structure, face sharing, positive volumes summing to the shell volume), Depth = distance below the top, node values = library values at the reference node '
                           '(string equality of the %g rendering, numeric 5e-6 + neighbourhood check otherwise), filtered/by-tag files = exactly the cells whose highest node tag is selected with unchanged node values; '
+                          'the same grid written as Base64Inline / Base64Appended / RawBinary read back through its own headers and offsets and compared with the ASCII file; '
                           'non-trivial = nodes inside a feature')
     nruns = 150 if tier == "quick" else 3000
     workdir = os.path.join(core.WORK, PID)
@@ -233,6 +308,62 @@ def main(tier, seed, replay):
     core.run_cases('asan', cases, PID + '_ref', per_case_timeout=300)
     for r, (rc, out, err) in zip(runs, outs):
         check_run(V, r, rc, out, err)
+    # ---- the other output formats of the same grid: every array equal to the ASCII file's (binary formats bit-identical among themselves)
+    nfmt = 24 if tier == 'quick' else 400
+    fjobs = []
+    for r in runs[:nfmt]:
+        gridfile = next((a for a in r['argv'] if a.endswith('.grid')), None)
+        if gridfile is None:
+            continue
+        base = open(os.path.join(r['dir'], gridfile)).read()
+        for fmt in ('Base64Inline', 'Base64Appended', 'RawBinary'):
+            d = os.path.join(r['dir'], 'fmt_' + fmt)
+            os.makedirs(d, exist_ok=True)
+            shutil.copy(os.path.join(r['dir'], 'world.wb'), d)
+            with open(os.path.join(d, gridfile), 'w') as f:
+                f.write(base.replace('vtu_output_format = ASCII', 'vtu_output_format = ' + fmt))
+            fjobs.append((r, fmt, d, gridfile))
+    with concurrent.futures.ThreadPoolExecutor(max_workers=8) as ex:
+        fouts = list(ex.map(run_tool, [(exe, ['-j', '2', 'world.wb', gf], d) for (r, fmt, d, gf) in fjobs]))
+    by_run = {}
+    for (r, fmt, d, gf), (rc, out, err) in zip(fjobs, fouts):
+        label = '%s:dim%d' % (r['spec']['grid_type'], r['spec']['dim'])
+        asc = os.path.join(r['dir'], 'world.vtu')
+        other = os.path.join(d, 'world.vtu')
+        if not os.path.exists(asc):
+            continue
+        V.count()
+        base = {'dir': d, 'format': fmt, 'spec': r['spec'], 'rc': rc, 'stderr_tail': err[-300:]}
+        if rc != 0 or not os.path.exists(other):
+            V.violation('output-format:tool-fails:%s' % fmt, base)
+            continue
+        try:
+            A = read_vtu_any(asc)
+            B = read_vtu_any(other)
+        except ValueError as e:
+            if str(e) == 'compressed':
+                continue
+            V.violation('output-format:file-not-readable-through-its-own-offsets-and-headers:%s' % fmt, dict(base, error=str(e)))
+            continue
+        except Exception as e:
+            V.violation('output-format:file-not-readable-through-its-own-offsets-and-headers:%s' % fmt, dict(base, error=repr(e)))
+            continue
+        if (A['npts'], A['ncells']) != (B['npts'], B['ncells']) or set(A['arrays']) != set(B['arrays']):
+            V.violation('output-format:arrays-or-counts-differ-from-the-ascii-file:%s' % fmt, dict(base, ascii=sorted(map(str, A['arrays'])), other=sorted(map(str, B['arrays']))))
+            continue
+        bad = None
+        for key, va in A['arrays'].items():
+            vb = B['arrays'][key]
+            if len(va) != len(vb) or any(abs(x - y) > 1e-5 * max(abs(x), abs(y)) + 1e-30 for x, y in zip(va, vb)):
+                bad = key
+                break
+        if bad:
+            V.violation('output-format:values-differ-from-the-ascii-file:%s' % fmt, dict(base, array=str(bad), ascii=A['arrays'][bad][:6], other=B['arrays'][bad][:6]))
+            continue
+        prev = by_run.setdefault(r['i'], B)
+        if prev is not B and any(prev['arrays'][k] != B['arrays'][k] for k in B['arrays']):
+            V.violation('output-format:binary-formats-disagree-bitwise:%s' % fmt, base)
+        V.nontrivial(('format', r['i'], fmt, A['npts'] % 3))
     return V.finish(floor_nontrivial=1200 if tier == "quick" else 30000, floor_evaluations=5000)
 
 
